@@ -1651,3 +1651,9 @@ pub(crate) mod testing {
         }), builder);
     }
 }
+/// Verification hook (features `verif` + `threaded-websockets`): wraps a tungstenite WebSocket in
+/// the crate's private Read/Write adapter.  Add-only.
+#[cfg(all(feature = "verif", feature = "threaded-websockets"))]
+pub(crate) fn verif_ws_wrap<T>(websocket: tungstenite::WebSocket<T>) -> impl Read + Write where T : Read + Write {
+    WebsocketStreamWrapper::new(websocket)
+}
